@@ -6,11 +6,11 @@ PROPS = {
         technique="contract-based deductive verification: VCs generated from the real AST (PyVC), discharged by z3; bounded concrete oracle as cross-check",
         text="Each interpreter of a parsed sequence set (sequence_set_to_list, Mailbox.msg_set_to_msg_seq_set, IMAPSearch._match_message_set/_match_uid) "
              "is proved, for all sets, mailbox sizes and message numbers, to compute membership in the single spec function `denotes` (a:b == b:a, * = max) and to raise Bad exactly "
-             "for non-UID numbers outside 1..N. Loops carry inductive invariants, so set length is unbounded.",
+             "for non-UID numbers outside 1..N. Loops carry inductive invariants, so set length is unbounded. Proved since: the parser's _p_msg_set returns, for every input, a list with one element per comma-separated piece of the matched text, each element being exactly what its piece says (the numeral's value, '*', or the pair of the two sides of a:b), and the list is well-formed in the sense every evaluator of message sets requires - the precondition of sequence_set_to_list, msg_set_to_msg_seq_set, _match_message_set/_uid and copy is thus established where the set enters the server.",
         note="Trusted: z3; the PyVC encoding of Python semantics (DESIGN 2.2: mathematical ints, lists as (len, array), sets as characteristic arrays); parser output shape "
              "(elements are int, '*', or pairs of those -- precondition wf_msgset). The text form of sets (_p_msg_set) and copy()/do_expunge's private expansion are covered by the bounded tier only.",
         assumptions=["z3 4.x/5.x sound", "PyVC encoding (DESIGN 2.2)", "parser yields int | '*' | (a, b) elements (wf_msgset precondition)"],
-        not_decided="text form of sequence sets (_p_msg_set) is bounded only",
+        not_decided='which prefix of the input _msg_set_re consumes (assumed regular-expression primitive)',
     ),
     "C18": dict(
         design_ref="DESIGN.md 7 C18",
